@@ -158,12 +158,28 @@ def self_contained(body):
 
 
 # ----------------------------------------------------------------------------------------------
+# numpy INTEGER scalars are not generated: they follow numpy's integer arithmetic (no negative powers, wrap-around), which is
+# not the "ordinary arithmetic" of the statement
+VTYPES = ["py", "py", "py", "np64", "np64", "pyint"]
+
+
+def typed(values, vtype):
+    """the same numbers in another numeric type: numpy float64 scalars (what list(np.array(...)) yields), numpy / Python
+    ints where every value is integral (and not NaN), else unchanged"""
+    import numpy as np
+    if vtype == "np64":
+        return [np.float64(v) for v in values]
+    if vtype in ("npint", "pyint") and all(v == v and abs(v) < 2 ** 53 and float(v).is_integer() for v in values):
+        return [np.int64(int(v)) for v in values] if vtype == "npint" else [int(v) for v in values]
+    return list(values)
+
+
 def build(case):
     n = case["n"]
     tr = make_track([tuple(p) for p in case["xyz"]], [T0 + 1000 * i for i in range(n)], case.get("coords", "ENU"))
     for name in ("a", "b"):
         if case.get(name) is not None:
-            tr.createAnalyticalFeature(name, list(case[name]))
+            tr.createAnalyticalFeature(name, typed(case[name], case.get("vtype", "py")))
     return tr
 
 
@@ -338,6 +354,7 @@ def strat_eval(draw, max_depth=6):
     xyz = draw(st.lists(st.tuples(*[st.sampled_from(exprs.VALUES)] * 3).map(list), min_size=n, max_size=n))
     c = _vec_case(tree, s, n, a, b, xyz)
     c["coords"] = draw(st.sampled_from(COORDS))
+    c["vtype"] = draw(st.sampled_from(VTYPES))
     used = exprs.externals_of(tree)
     if used or with_ext:
         # the dictionary of the call: the externals of the text, sometimes one more that the text does not use
@@ -396,13 +413,21 @@ def strat_assign(draw):
         for k in ("ext", "ext_more", "fresh"):
             c.pop(k, None)
     c["sp"] = draw(st.sampled_from(["", "", " "]))
+    # the augmented spelling  lhs op= rhs  (documented meaning: lhs = lhs op (rhs)); needs an lhs that exists
+    if c["lhs"] in ("a", "b", "x", "y", "z") and c.get(c["lhs"], True) is not None and draw(st.integers(0, 3)) == 0:
+        c["aug"] = draw(st.sampled_from(["+", "-", "*", "/", "^", "-", "*"]))
     return c
 
 
 @self_contained
 def body_assign(case):
     tree, lhs = case["tree"], case["lhs"]
-    s = lhs + case.get("sp", "") + "=" + case.get("sp", "") + case["s"]
+    aug = case.get("aug")
+    if aug:
+        s = lhs + case.get("sp", "") + aug + "=" + case.get("sp", "") + case["s"]
+        tree = ["b", aug, ["n", lhs], tree]
+    else:
+        s = lhs + case.get("sp", "") + "=" + case.get("sp", "") + case["s"]
     coords = case.get("coords", "ENU")
     info = None
     for j, (ext, _) in enumerate(ext_rounds(case)):       # every round on a fresh track (histories are C01's subject)
@@ -432,7 +457,8 @@ def body_assign(case):
             kind = "coord" if coord else ("overwrite" if lhs in before["names"] else "create")
             f = exprs.features(tree)
             rhs = "literal-rhs" if not f["names"] else ("name-rhs" if tree[0] == "n" else "expr-rhs")
-            info = {"nt": True, "cls": [kind, rhs, "coords-" + coords, kind + "-" + coords] + (["ext"] if f["externals"] else [])}
+            info = {"nt": True, "cls": [kind, rhs, "coords-" + coords, kind + "-" + coords] + (["ext"] if f["externals"] else [])
+                    + (["augmented-" + aug] if aug else []) + ["values-" + case.get("vtype", "py")]}
             if coord:
                 info["cls"].append("coord-%s-%s" % (rhs, coords))
         elif "ext-repeat" not in info["cls"]:
